@@ -13,7 +13,6 @@ package harness
 import (
 	"bytes"
 	"fmt"
-	"math/big"
 	"strings"
 	"testing"
 
@@ -365,13 +364,6 @@ func c05Program(t *rapid.T, ev *evProp, gi *GroupInfo, maxSteps int) {
 		c05Check(t, ev, s, op, step, history)
 	}
 	ev.Case(nontrivial, gi.Name+": "+strings.Join(history, "; "), labels...)
-}
-
-func isUnit(v, q *big.Int) bool {
-	if v.Sign() == 0 {
-		return false
-	}
-	return new(big.Int).GCD(nil, nil, v, q).Cmp(big1) == 0
 }
 
 func c05Ret(t *rapid.T, ev *evProp, gi *GroupInfo, op string, ret kyber.Point, want []byte, desc string) {
